@@ -121,6 +121,9 @@ def run(ctx):
         return fn
     ctx.replayers['asceprovider.AssociationAcceptor*'] = _replayer('nego.py')
     ctx.replayers['asceprovider.AssociationRequester*'] = _replayer('nego.py')
+    ctx.native_crosschecks.append(('nego.py', {'obligation': 'asceprovider.AssociationAcceptor.accept#'}, 'acceptor over the maximum-length grid'))
+    ctx.native_crosschecks.append(('nego.py', {'obligation': 'asceprovider.AssociationRequester._request#'}, 'requester over the maximum-length grid'))
+    ctx.native_crosschecks.append(('fragments.py', {'obligation': ''}, 'fragment sizes against the limit'))
     # ------------------------------------------------------------------ the limit applied to what is sent
     # Association.send hands eff to DIMSEMessage.encode; every P-DATA-TF that yields has
     # pdu_length = len(fragment) + 6 <= eff (eff != 0), and all bytes are sent for any eff in range
